@@ -46,10 +46,18 @@ Proof.
   unfold dkeys in IH. rewrite IH. destruct (mem k (map fst d)); reflexivity.
 Qed.
 
+Lemma NoDup_snoc {A} (l : list A) x : NoDup l -> ~ In x l -> NoDup (l ++ [x]).
+Proof.
+  induction l as [|a l IH]; cbn [app]; intros H Hn; [constructor; [intros []|constructor]|].
+  inversion H; subst. constructor.
+  - intros Hin. apply in_app_or in Hin. destruct Hin as [Hin|[Hin|[]]]; [contradiction|]. subst. apply Hn. left. reflexivity.
+  - apply IH; [assumption|]. intros Hin. apply Hn. right. exact Hin.
+Qed.
+
 Lemma dset_nodup {A} (d : dict A) k v : NoDup (dkeys d) -> NoDup (dkeys (dset d k v)).
 Proof.
   intros H. rewrite dkeys_dset. destruct (mem k (dkeys d)) eqn:E; [exact H|].
-  apply NoDup_app_snoc; [exact H|apply mem_false_notin; exact E].
+  apply NoDup_snoc; [exact H|apply mem_false_notin; exact E].
 Qed.
 
 Lemma dget_map {A B} (f : A -> B) (d : dict A) L :
@@ -88,16 +96,629 @@ Proof. unfold in_bucket. intros ->. reflexivity. Qed.
 Lemma in_bucket_none bl L r : bucket_label bl r = None -> in_bucket bl L r = false.
 Proof. unfold in_bucket. intros ->. reflexivity. Qed.
 
+
 (* divide_objects = the filter by bucket label, key present iff target label or non-empty bucket *)
-Theorem divide_get bl f L : dget (divide bl f) L = if has_key bl f L then Some (bucket bl L f) else None.
+Theorem divide_get bl f : forall L, dget (divide bl f) L = if has_key bl f L then Some (bucket bl L f) else None.
 Proof.
-  induction f as [|r f IH] using rev_ind.
+  induction f as [|r f IH] using rev_ind; intros L.
   - unfold divide, has_key, bucket. cbn [fold_left existsb filter]. rewrite dinit_get, orb_false_r. reflexivity.
   - unfold divide in *. rewrite fold_left_app. cbn [fold_left]. unfold divide_step at 1.
     rewrite has_key_snoc. unfold bucket at 1. rewrite filter_snoc. fold (bucket bl L f).
     destruct (bucket_label bl r) as [l|] eqn:B.
-    + rewrite (in_bucket_label bl L r l B).
-      assert (Hl : dget (fold_left (divide_step bl) f (dinit bl [])) l = if has_key bl f l then Some (bucket bl l f) else None).
-      { clear IH. revert l B. intros l _. generalize (has_key bl f l). intros b. revert b.
-        (* re-derive the induction hypothesis at key l *) intros b. exact (match b with true => I | false => I end) || idtac. }
-Abort.
+    + rewrite (in_bucket_label bl L r l B), (IH l).
+      destruct (has_key bl f l) eqn:Hl; rewrite dget_dset; (destruct (Nat.eqb l L) eqn:E; [|rewrite IH, orb_false_r, app_nil_r; reflexivity]).
+      * apply Nat.eqb_eq in E. subst L. rewrite orb_true_r. reflexivity.
+      * apply Nat.eqb_eq in E. subst L. rewrite orb_true_r. unfold has_key in Hl. apply orb_false_iff in Hl. destruct Hl as [_ Hl].
+        unfold bucket. rewrite (existsb_false_filter _ _ Hl). reflexivity.
+    + rewrite (in_bucket_none bl L r B), IH, orb_false_r, app_nil_r. reflexivity.
+Qed.
+
+Lemma divide_step_nodup bl d r : NoDup (dkeys d) -> NoDup (dkeys (divide_step bl d r)).
+Proof.
+  intros H. unfold divide_step. destruct (bucket_label bl r); [|exact H].
+  destruct (dget d n); apply dset_nodup; exact H.
+Qed.
+Lemma divide_nodup bl f : NoDup (dkeys (divide bl f)).
+Proof.
+  unfold divide. generalize (dinit_nodup bl (@nil pres)). generalize (dinit bl (@nil pres)).
+  induction f as [|r f IH]; intros d H; cbn [fold_left]; [exact H|]. apply IH. apply divide_step_nodup. exact H.
+Qed.
+
+(* the keys: the target labels in order (first occurrences), then the other bucket labels in order of appearance *)
+Lemma divide_key_iff bl f L : In L (dkeys (divide bl f)) <-> has_key bl f L = true.
+Proof.
+  pose proof (divide_get bl f L) as H. pose proof (dget_none_notin (divide bl f) L) as N.
+  destruct (has_key bl f L); split; intros; auto; try discriminate.
+  - destruct (in_dec Nat.eq_dec L (dkeys (divide bl f))) as [Hi|Hi]; [exact Hi|]. apply N in Hi. congruence.
+  - exfalso. apply N in H; auto.
+Qed.
+
+(* divide_objects_to_num on ground-truth objects *)
+Lemma count_label_snoc L gts l : count_label L (gts ++ [l]) = (count_label L gts + (if Nat.eqb L l then 1 else 0))%nat.
+Proof. unfold count_label. rewrite filter_snoc, app_length. destruct (Nat.eqb L l); reflexivity. Qed.
+
+Theorem divide_num_get bl gts : forall L, dget (divide_num bl gts) L = if mem L bl then Some (count_label L gts) else None.
+Proof.
+  induction gts as [|l gts IH] using rev_ind; intros L.
+  - unfold divide_num, count_label. cbn [fold_left filter length]. apply dinit_get.
+  - unfold divide_num in *. rewrite fold_left_app. cbn [fold_left]. unfold num_step at 1. rewrite count_label_snoc.
+    destruct (mem l bl) eqn:Ml.
+    + rewrite (IH l), Ml, dget_dset, (Nat.eqb_sym L l). destruct (Nat.eqb l L) eqn:E.
+      * apply Nat.eqb_eq in E. subst L. rewrite Ml. f_equal. lia.
+      * rewrite IH, Nat.add_0_r. reflexivity.
+    + rewrite IH. destruct (mem L bl) eqn:ML; [|reflexivity].
+      destruct (Nat.eqb L l) eqn:E; [apply Nat.eqb_eq in E; subst; congruence|]. rewrite Nat.add_0_r. reflexivity.
+Qed.
+
+(* sum(num_ground_truth.values()) *)
+Lemma dsum_dset_new d k v : dget d k = None -> dsum (dset d k v) = (dsum d + v)%nat.
+Proof.
+  induction d as [|[k' v'] d IH]; cbn [dget dset dsum fold_right snd]; [intros _; lia|].
+  destruct (Nat.eqb k' k); [discriminate|]. intros H. cbn [dsum fold_right snd]. fold (dsum (dset d k v)). fold (dsum d). rewrite (IH H). lia.
+Qed.
+Lemma dsum_dset_old d k n v : dget d k = Some n -> (dsum (dset d k v) + n = dsum d + v)%nat.
+Proof.
+  induction d as [|[k' v'] d IH]; cbn [dget dset]; [discriminate|].
+  destruct (Nat.eqb k' k).
+  - intros H. inversion H; subst. cbn [dsum fold_right snd]. lia.
+  - intros H. cbn [dsum fold_right snd]. fold (dsum (dset d k v)). fold (dsum d). specialize (IH H). lia.
+Qed.
+Lemma dsum_dinit labels : forall d0, dsum d0 = 0%nat -> dsum (fold_left (fun d l => dset d l 0%nat) labels d0) = 0%nat.
+Proof.
+  induction labels as [|a labels IH]; intros d0 H; cbn [fold_left]; [exact H|]. apply IH.
+  destruct (dget d0 a) as [n|] eqn:E.
+  - pose proof (dsum_dset_old d0 a n 0%nat E). lia.
+  - rewrite (dsum_dset_new d0 a 0%nat E). lia.
+Qed.
+Lemma num_step_dsum bl d l : dsum (num_step bl d l) = (dsum d + (if mem l bl then 1 else 0))%nat.
+Proof.
+  unfold num_step. destruct (mem l bl); [|lia]. destruct (dget d l) as [n|] eqn:E.
+  - pose proof (dsum_dset_old d l n (S n) E). lia.
+  - apply dsum_dset_new. exact E.
+Qed.
+Theorem frame_num_gt_count fr : frame_num_gt fr = countb (fun l => mem l (f_bl fr)) (f_gts fr).
+Proof.
+  unfold frame_num_gt, divide_num. set (bl := f_bl fr).
+  assert (G : forall gts d, dsum (fold_left (num_step bl) gts d) = (dsum d + countb (fun l => mem l bl) gts)%nat).
+  { induction gts as [|l gts IH]; intros d; cbn [fold_left]; [unfold countb; cbn; lia|].
+    rewrite IH, num_step_dsum. unfold countb. cbn [filter]. destruct (mem l bl); cbn [length]; lia. }
+  rewrite G. unfold dinit. rewrite dsum_dinit; reflexivity.
+Qed.
+
+(* ---------- evaluate_frame: the nesting loop ---------- *)
+Lemma nest_fold items : NoDup (dkeys items) -> forall tr,
+  (forall k, In k (dkeys items) -> dget tr k = None \/ exists c, dget tr k = Some (Flat c)) ->
+  forall L, dget (fold_left nest_step items tr) L =
+    match dget items L with
+    | Some pv => Some (Nested pv (match dget tr L with Some (Flat c) => c | _ => [] end))
+    | None => dget tr L
+    end.
+Proof.
+  induction items as [|[k pv] items IH]; intros Hn tr Hf L; cbn [fold_left]; [reflexivity|].
+  cbn [dkeys map fst] in Hn. apply NoDup_cons_iff in Hn. destruct Hn as [Hk Hn].
+  set (c0 := match dget tr k with Some (Flat c) => c | _ => [] end).
+  assert (E1 : nest_step tr (k, pv) = dset tr k (Nested pv c0)).
+  { unfold nest_step, c0. cbn [fst snd]. destruct (Hf k (or_introl eq_refl)) as [H|[c H]]; rewrite H; reflexivity. }
+  rewrite E1. rewrite IH; [|exact Hn|].
+  - cbn [dget]. rewrite dget_dset. destruct (Nat.eqb k L) eqn:E.
+    + apply Nat.eqb_eq in E. subst L. assert (Hnone : dget items k = None) by (apply dget_none_notin; exact Hk).
+      rewrite Hnone. reflexivity.
+    + reflexivity.
+  - intros k' Hk'. rewrite dget_dset. destruct (Nat.eqb k k') eqn:E.
+    + apply Nat.eqb_eq in E. subst k'. contradiction.
+    + apply Hf. right. exact Hk'.
+Qed.
+
+Lemma prev_dict_get bl prev L : mem L bl = true ->
+  dget (prev_dict bl prev) L = Some (bucket bl L (match prev with Some p => p | None => [] end)).
+Proof.
+  intros H. destruct prev as [p|]; cbn [prev_dict].
+  - rewrite divide_get. unfold has_key. rewrite H. reflexivity.
+  - rewrite dinit_get, H. reflexivity.
+Qed.
+Lemma prev_dict_nodup bl prev : NoDup (dkeys (prev_dict bl prev)).
+Proof. destruct prev; [apply divide_nodup|apply dinit_nodup]. Qed.
+
+(* for every target label of the critical filter: [bucket of the previous frame, bucket of this frame] *)
+Theorem tracking_results_get bl prev cur L : mem L bl = true ->
+  dget (tracking_results bl prev cur) L =
+  Some (Nested (bucket bl L (match prev with Some p => p | None => [] end)) (bucket bl L cur)).
+Proof.
+  intros H. unfold tracking_results. rewrite nest_fold.
+  - rewrite (prev_dict_get bl prev L H), dget_map, divide_get. unfold has_key. rewrite H. reflexivity.
+  - apply prev_dict_nodup.
+  - intros k _. rewrite dget_map. destruct (dget (divide bl cur) k); [right; eexists; reflexivity|left; reflexivity].
+Qed.
+(* no key is ever visited twice *)
+Theorem tracking_results_never_renested bl prev cur L : dget (tracking_results bl prev cur) L <> Some Renested.
+Proof.
+  unfold tracking_results. rewrite nest_fold.
+  - destruct (dget (prev_dict bl prev) L); [discriminate|]. rewrite dget_map. destruct (dget (divide bl cur) L); discriminate.
+  - apply prev_dict_nodup.
+  - intros k _. rewrite dget_map. destruct (dget (divide bl cur) k); [right; eexists; reflexivity|left; reflexivity].
+Qed.
+
+(* ---------- TrackingMetricsScore / MetricsScore.evaluate_tracking ---------- *)
+Lemma all_some_map {A B} (f : A -> option B) (g : A -> B) l :
+  (forall x, In x l -> f x = Some (g x)) -> all_some (map f l) = Some (map g l).
+Proof.
+  induction l as [|a l IH]; intros H; [reflexivity|]. cbn [map all_some].
+  rewrite (H a (or_introl eq_refl)), IH; [reflexivity|]. intros x Hx. apply H. right. exact Hx.
+Qed.
+
+Theorem frame_tracking_spec tl cfg prev cur :
+  (forall L, In L tl -> mem L (f_bl cur) = true) ->
+  frame_tracking tl cfg prev cur = Some (scores_spec tl cfg (fun mm Lt => frame_clear mm Lt prev cur)).
+Proof.
+  intros Hin. unfold frame_tracking, scores_spec. apply all_some_map. intros [mm thrs] _. cbn [fst snd].
+  apply all_some_map. intros [L t] HLt. apply in_combine_l in HLt. specialize (Hin L HLt).
+  unfold clear_for_frame. cbn [fst]. rewrite (tracking_results_get _ _ _ L Hin), divide_num_get, Hin.
+  unfold frame_clear, frame_history, prev_res. cbn [fst]. destruct prev; reflexivity.
+Qed.
+
+(* ---------- what CLEAR([L],[t]) does with the results of bucket L ---------- *)
+(* the label whose threshold CLEAR looks up *)
+Definition pthr_label (r : pres) : nat := match pr_gt r with Some g => pg_lab g | None => pr_elab r end.
+
+Lemma view_thr_label mm r : thr_label (view mm r) = pthr_label r.
+Proof. unfold thr_label, view, pthr_label. cbn. destruct (pr_gt r); reflexivity. Qed.
+
+Lemma is_target_single mm L t r : is_target [(L, t)] (view mm r) = Nat.eqb L (pthr_label r).
+Proof. unfold is_target. cbn [label_threshold]. rewrite view_thr_label. destruct (Nat.eqb L (pthr_label r)); reflexivity. Qed.
+
+Lemma in_bucket_true bl L r : in_bucket bl L r = true -> bucket_label bl r = Some L.
+Proof. unfold in_bucket. destruct (bucket_label bl r) as [b|]; [|discriminate]. intros H. apply Nat.eqb_eq in H. subst. reflexivity. Qed.
+
+(* a result of bucket L is skipped by the label's CLEAR exactly when it is a cross-label pair: the estimate
+   carries the target label L but its ground truth another label *)
+Lemma bucket_skipped_iff bl L r : in_bucket bl L r = true ->
+  (Nat.eqb L (pthr_label r) = false <-> pr_elab r = L /\ exists g, pr_gt r = Some g /\ pg_lab g <> L).
+Proof.
+  intros H. apply in_bucket_true in H. unfold bucket_label in H. unfold pthr_label.
+  destruct (mem (pr_elab r) bl).
+  - inversion H as [E]. destruct (pr_gt r) as [g|].
+    + split.
+      * intros N. apply Nat.eqb_neq in N. split; [reflexivity|]. exists g. split; [reflexivity|]. congruence.
+      * intros (_ & g' & Eg & Ng). inversion Eg; subst g'. apply Nat.eqb_neq. congruence.
+    + split; [rewrite E, Nat.eqb_refl; discriminate|]. intros (_ & g & Eg & _). discriminate.
+  - destruct (pr_gt r) as [g|]; [|discriminate]. inversion H as [E]. split; [rewrite Nat.eqb_refl; discriminate|].
+    intros (_ & g' & Eg & Ng). inversion Eg; subst g'. contradiction.
+Qed.
+
+Theorem frame_clear_partition mm L t prev cur :
+  let k := frame_clear mm (L, t) prev cur in
+  let b := bucket (f_bl cur) L (f_res cur) in
+  (c_tp (k_cnt k) + c_fp (k_cnt k) = countb (fun r => Nat.eqb L (pthr_label r)) b)%nat /\
+  c_num (k_cnt k) = length b /\ k_numgt k = count_label L (f_gts cur).
+Proof.
+  cbv zeta. unfold frame_clear, frame_history, make_clear. cbn [k_cnt k_numgt fst].
+  destruct (clear_partition (mode_of mm) [(L, t)] [map (view mm) (bucket (f_bl cur) L (prev_res prev)); map (view mm) (bucket (f_bl cur) L (f_res cur))]) as [H1 H2].
+  cbv zeta in H1, H2. rewrite H1, H2. unfold evaluated. cbn [tl concat]. rewrite app_nil_r, map_length.
+  split; [|split; reflexivity]. rewrite countb_map. apply countb_ext_in. intros r _. apply is_target_single.
+Qed.
+
+(* ---------- the manager: add_frame_result threads the immediate predecessor ---------- *)
+Fixpoint frame_outs (tl : list nat) (cfg : tcfg) (prev : option pfr) (frs : list pfr) : list (option scores) :=
+  match frs with
+  | [] => []
+  | fr :: rest => frame_tracking tl cfg prev fr :: frame_outs tl cfg (Some fr) rest
+  end.
+
+Lemma last_opt_snoc {A} (l : list A) x : last_opt (l ++ [x]) = Some x.
+Proof. unfold last_opt. rewrite rev_unit. reflexivity. Qed.
+
+Theorem run_frames_spec tl cfg : forall frs st,
+  run_frames tl cfg st frs = (st ++ frs, frame_outs tl cfg (last_opt st) frs).
+Proof.
+  induction frs as [|fr rest IH]; intros st; cbn [run_frames frame_outs]; [rewrite app_nil_r; reflexivity|].
+  unfold add_frame. rewrite IH, last_opt_snoc, <- app_assoc. reflexivity.
+Qed.
+
+(* ---------- get_scene_result ---------- *)
+Lemma scene_inner od nd : forall labels ad an, NoDup labels ->
+  (forall L, In L labels -> dget ad L <> None /\ dget od L <> None /\ dget an L <> None /\ dget nd L <> None) ->
+  exists ad' an', fold_left (scene_label_step od nd) labels (Some (ad, an)) = Some (ad', an') /\
+    (forall L, dget ad' L = if mem L labels
+                            then match dget ad L, dget od L with Some h, Some b => Some (h ++ [b]) | _, _ => None end
+                            else dget ad L) /\
+    (forall L, dget an' L = if mem L labels
+                            then match dget an L, dget nd L with Some n, Some k => Some (n + k)%nat | _, _ => None end
+                            else dget an L).
+Proof.
+  induction labels as [|a labels IH]; intros ad an Hn Hk; cbn [fold_left].
+  - exists ad, an. split; [reflexivity|split; intros L; reflexivity].
+  - apply NoDup_cons_iff in Hn. destruct Hn as [Ha Hn].
+    destruct (Hk a (or_introl eq_refl)) as (H1 & H2 & H3 & H4).
+    destruct (dget ad a) as [h|] eqn:E1; [|congruence]. destruct (dget od a) as [b|] eqn:E2; [|congruence].
+    destruct (dget an a) as [n|] eqn:E3; [|congruence]. destruct (dget nd a) as [k|] eqn:E4; [|congruence].
+    unfold scene_label_step at 2. rewrite E1, E2, E3, E4.
+    destruct (IH (dset ad a (h ++ [b])) (dset an a (n + k)%nat) Hn) as (ad' & an' & EF & G1 & G2).
+    { intros L HL. rewrite !dget_dset. destruct (Nat.eqb a L) eqn:E; [apply Nat.eqb_eq in E; subst; contradiction|].
+      apply Hk. right. exact HL. }
+    exists ad', an'. split; [exact EF|]. split; intros L; [rewrite G1|rewrite G2]; rewrite mem_cons, dget_dset, (Nat.eqb_sym L a);
+      (destruct (Nat.eqb a L) eqn:E; cbn [orb];
+       [apply Nat.eqb_eq in E; subst L; destruct (mem a labels) eqn:M; [apply mem_In in M; contradiction|]|reflexivity]).
+    + rewrite E1, E2. reflexivity.
+    + rewrite E3, E4. reflexivity.
+Qed.
+
+Lemma sum_nat_app l1 l2 : sum_nat (l1 ++ l2) = (sum_nat l1 + sum_nat l2)%nat.
+Proof. induction l1 as [|a l1 IH]; cbn [app sum_nat]; [reflexivity|]. rewrite IH. lia. Qed.
+
+Theorem scene_dicts_spec tl : NoDup tl -> forall frames, exists ad an,
+  scene_dicts tl frames = Some (ad, an) /\
+  (forall L, dget ad L = if mem L tl then Some ([] :: map (fun fr => bucket tl L (f_res fr)) frames) else None) /\
+  (forall L, dget an L = if mem L tl then Some (sum_nat (map (fun fr => count_label L (f_gts fr)) frames)) else None).
+Proof.
+  intros Hn. induction frames as [|fr frames IH] using rev_ind.
+  - exists (dinit tl [[]]), (dinit tl 0%nat). split; [reflexivity|]. split; intros L; apply dinit_get.
+  - destruct IH as (ad & an & E & G1 & G2). unfold scene_dicts in *. rewrite fold_left_app. cbn [fold_left]. rewrite E.
+    unfold scene_frame_step.
+    destruct (scene_inner (divide tl (f_res fr)) (divide_num tl (f_gts fr)) tl ad an Hn) as (ad' & an' & EF & K1 & K2).
+    { intros L HL. apply mem_In in HL. rewrite G1, G2, divide_get, divide_num_get. unfold has_key. rewrite HL. repeat split; discriminate. }
+    exists ad', an'. split; [exact EF|]. split; intros L; [rewrite K1, G1, divide_get|rewrite K2, G2, divide_num_get]; unfold has_key;
+      destruct (mem L tl); cbn [orb]; try reflexivity.
+    + rewrite map_app. reflexivity.
+    + rewrite map_app, sum_nat_app. cbn [map sum_nat]. rewrite Nat.add_0_r. reflexivity.
+Qed.
+
+Theorem scene_tracking_spec tl cfg frames : NoDup tl ->
+  scene_tracking tl cfg frames = Some (scores_spec tl cfg (fun mm Lt => scene_clear tl mm Lt frames)).
+Proof.
+  intros Hn. destruct (scene_dicts_spec tl Hn frames) as (ad & an & E & G1 & G2).
+  unfold scene_tracking, scores_spec. rewrite E. apply all_some_map. intros [mm thrs] _. cbn [fst snd].
+  apply all_some_map. intros [L t] HLt. apply in_combine_l in HLt. apply mem_In in HLt.
+  unfold clear_for_scene. cbn [fst]. rewrite G1, G2, HLt. unfold scene_clear, scene_history. cbn [fst map]. rewrite map_map. reflexivity.
+Qed.
+
+(* ---------- the scene CLEAR is the sum of the frame CLEARs ---------- *)
+Definition cadd (a b : counters) : counters :=
+  mkC (c_tp a + c_tp b) (c_fp a + c_fp b) (c_sw a + c_sw b) (c_score a + c_score b) (c_num a + c_num b).
+Fixpoint csum (l : list counters) : counters := match l with [] => zero | x :: t => cadd x (csum t) end.
+
+(* the counters of the two-frame histories [f_{i-1}; f_i] along a history *)
+Fixpoint pair_counts (m : mode) (T : targets) (prev : frame) (rest : list frame) : list counters :=
+  match rest with
+  | [] => []
+  | cur :: r => clear_counts m T [prev; cur] :: pair_counts m T cur r
+  end.
+
+Lemma accumulate_pairs m T : forall rest prev a,
+  counters_eq (accumulate m T prev rest a) (cadd a (csum (pair_counts m T prev rest))).
+Proof.
+  induction rest as [|cur rest IH]; intros prev a; cbn [accumulate pair_counts csum].
+  - unfold counters_eq, cadd. cbn. repeat split; try lia. ring.
+  - destruct (IH cur (add_counters a (calc_tp_fp m T prev cur) (length cur))) as (H1 & H2 & H3 & H4 & H5).
+    unfold counters_eq. rewrite H1, H2, H3, H4, H5. unfold clear_counts. cbn [accumulate].
+    destruct (calc_tp_fp_partition m T prev cur) as [_ Hz].
+    unfold cadd, add_counters. cbn [c_tp c_fp c_sw c_score c_num zero]. repeat split; try lia. ring.
+Qed.
+
+Theorem clear_counts_pairs m T f0 rest :
+  counters_eq (clear_counts m T (f0 :: rest)) (csum (pair_counts m T f0 rest)).
+Proof.
+  unfold clear_counts. destruct (accumulate_pairs m T rest f0 zero) as (H1 & H2 & H3 & H4 & H5).
+  unfold counters_eq. rewrite H1, H2, H3, H4, H5. unfold cadd. cbn. repeat split; try lia. ring.
+Qed.
+
+(* same membership => same buckets *)
+Lemma bucket_label_ext bl bl' r : (forall l, mem l bl = mem l bl') -> bucket_label bl r = bucket_label bl' r.
+Proof. intros H. unfold bucket_label. rewrite H. reflexivity. Qed.
+Lemma bucket_ext bl bl' L f : (forall l, mem l bl = mem l bl') -> bucket bl L f = bucket bl' L f.
+Proof. intros H. unfold bucket. apply filter_ext. intros r. unfold in_bucket. rewrite (bucket_label_ext bl bl' r H). reflexivity. Qed.
+
+Lemma frame_pairs tl mm L t : forall frames prev,
+  (forall fr, In fr frames -> forall l, mem l (f_bl fr) = mem l tl) ->
+  pair_counts (mode_of mm) [(L, t)] (map (view mm) (bucket tl L (prev_res prev)))
+              (map (fun fr => map (view mm) (bucket tl L (f_res fr))) frames) =
+  map k_cnt (frame_clears mm (L, t) prev frames).
+Proof.
+  induction frames as [|fr frames IH]; intros prev Hb; cbn [map pair_counts frame_clears]; [reflexivity|].
+  pose proof (IH (Some fr) (fun fr' Hf => Hb fr' (or_intror Hf))) as IH'. cbn [prev_res] in IH'. rewrite IH'.
+  f_equal. unfold frame_clear, frame_history, make_clear. cbn [k_cnt fst].
+  rewrite !(bucket_ext (f_bl fr) tl) by (apply Hb; left; reflexivity). reflexivity.
+Qed.
+
+Lemma csum_components (ks : list clear) :
+  c_tp (csum (map k_cnt ks)) = sumN k_tp ks /\ c_fp (csum (map k_cnt ks)) = sumN (fun k => c_fp (k_cnt k)) ks /\
+  c_sw (csum (map k_cnt ks)) = sumN k_sw ks /\ c_score (csum (map k_cnt ks)) == sumQ (fun k => c_score (k_cnt k)) ks /\
+  c_num (csum (map k_cnt ks)) = sumN (fun k => c_num (k_cnt k)) ks.
+Proof.
+  induction ks as [|k ks (H1 & H2 & H3 & H4 & H5)]; cbn [map csum sumN fold_right]; [cbn; repeat split; reflexivity|].
+  unfold cadd. cbn [c_tp c_fp c_sw c_score c_num]. unfold sumN in *. rewrite H1, H2, H3, H5. repeat split.
+  unfold sumQ in *. cbn [map qsum]. rewrite H4. reflexivity.
+Qed.
+
+Lemma frame_clears_numgt mm Lt : forall frames prev,
+  sum_nat (map (fun fr => count_label (fst Lt) (f_gts fr)) frames) = sumN k_numgt (frame_clears mm Lt prev frames).
+Proof.
+  induction frames as [|fr frames IH]; intros prev; cbn [map sum_nat frame_clears sumN fold_right]; [reflexivity|].
+  rewrite (IH (Some fr)). reflexivity.
+Qed.
+
+Lemma scene_counts_eq tl mm L t frames :
+  (forall fr, In fr frames -> forall l, mem l (f_bl fr) = mem l tl) ->
+  counters_eq (k_cnt (scene_clear tl mm (L, t) frames)) (csum (map k_cnt (frame_clears mm (L, t) None frames))).
+Proof.
+  intros Hb. unfold scene_clear, scene_history, make_clear. cbn [k_cnt fst].
+  rewrite <- (frame_pairs tl mm L t frames None Hb). cbn [prev_res bucket filter map]. apply clear_counts_pairs.
+Qed.
+
+Theorem scene_sums_frames tl mm L t frames :
+  (forall fr, In fr frames -> forall l, mem l (f_bl fr) = mem l tl) ->
+  let ks := frame_clears mm (L, t) None frames in
+  let s := scene_clear tl mm (L, t) frames in
+  let TP := sumN k_tp ks in let FP := sumN (fun k => c_fp (k_cnt k)) ks in
+  let SW := sumN k_sw ks in let G := sumN k_numgt ks in
+  let SC := sumQ (fun k => c_score (k_cnt k)) ks in
+  c_tp (k_cnt s) = TP /\ c_fp (k_cnt s) = FP /\ c_sw (k_cnt s) = SW /\
+  c_num (k_cnt s) = sumN (fun k => c_num (k_cnt k)) ks /\
+  c_score (k_cnt s) == SC /\ k_numgt s = G /\
+  k_mota s = match G with O => None | _ => Some (max0 ((Qnat TP - Qnat FP - Qnat SW) / Qnat G)) end /\
+  oq_eq (k_motp s) (match TP with O => None | _ => Some (SC / Qnat TP) end).
+Proof.
+  intros Hb. cbv zeta.
+  destruct (scene_counts_eq tl mm L t frames Hb) as (H1 & H2 & H3 & H4 & H5).
+  destruct (csum_components (frame_clears mm (L, t) None frames)) as (G1 & G2 & G3 & G4 & G5).
+  rewrite G1 in H1. rewrite G2 in H2. rewrite G3 in H3. rewrite G4 in H4. rewrite G5 in H5.
+  assert (EN : k_numgt (scene_clear tl mm (L, t) frames) = sumN k_numgt (frame_clears mm (L, t) None frames)).
+  { unfold scene_clear, make_clear. cbn [k_numgt]. apply (frame_clears_numgt mm (L, t)). }
+  repeat split; try assumption.
+  - unfold scene_clear, make_clear in *. cbn [k_cnt k_numgt k_mota fst] in *. unfold mota_of. rewrite EN, H1, H2, H3. reflexivity.
+  - unfold scene_clear, make_clear in *. cbn [k_cnt k_numgt k_motp fst] in *. unfold motp_of. rewrite H1.
+    destruct (sumN k_tp (frame_clears mm (L, t) None frames)) as [|n]; [exact I|]. cbn [oq_eq]. rewrite H4. reflexivity.
+Qed.
+
+(* ---------- the buckets partition the object results ---------- *)
+Lemma in_bucket_unique bl L1 L2 r : in_bucket bl L1 r = true -> in_bucket bl L2 r = true -> L1 = L2.
+Proof. intros H1 H2. apply in_bucket_true in H1. apply in_bucket_true in H2. congruence. Qed.
+
+Lemma in_bucket_target_estimate bl L r : mem (pr_elab r) bl = true -> in_bucket bl L r = Nat.eqb (pr_elab r) L.
+Proof. intros H. unfold in_bucket, bucket_label. rewrite H. reflexivity. Qed.
+
+Lemma in_bucket_or_dropped bl r : is_dropped bl r = true \/ exists L, in_bucket bl L r = true.
+Proof.
+  unfold is_dropped, in_bucket. destruct (bucket_label bl r) as [l|]; [right; exists l; apply Nat.eqb_refl|left; reflexivity].
+Qed.
+
+Lemma dropped_iff bl r : is_dropped bl r = true <-> mem (pr_elab r) bl = false /\ pr_gt r = None.
+Proof.
+  unfold is_dropped, bucket_label. destruct (mem (pr_elab r) bl); [split; [discriminate|intros [H _]; discriminate]|].
+  destruct (pr_gt r); split; try discriminate; auto. intros [_ H]. discriminate.
+Qed.
+
+Lemma concat_buckets_cons bl r f l : bucket_label bl r = Some l -> forall keys, NoDup keys -> In l keys ->
+  Permutation (concat (map (fun L => bucket bl L (r :: f)) keys)) (r :: concat (map (fun L => bucket bl L f) keys)).
+Proof.
+  intros B. induction keys as [|a keys IH]; intros Hn Hin; [destruct Hin|].
+  apply NoDup_cons_iff in Hn. destruct Hn as [Ha Hn]. cbn [map concat].
+  unfold bucket at 1. cbn [filter]. fold (bucket bl a f). rewrite (in_bucket_label bl a r l B).
+  destruct (Nat.eqb l a) eqn:E.
+  - apply Nat.eqb_eq in E. subst a. cbn [app]. constructor.
+    assert (Em : map (fun L => bucket bl L (r :: f)) keys = map (fun L => bucket bl L f) keys).
+    { apply map_ext_in. intros L HL. unfold bucket. cbn [filter]. rewrite (in_bucket_label bl L r l B).
+      destruct (Nat.eqb l L) eqn:E2; [apply Nat.eqb_eq in E2; subst; contradiction|reflexivity]. }
+    rewrite Em. apply Permutation_refl.
+  - destruct Hin as [Hin|Hin]; [subst; rewrite Nat.eqb_refl in E; discriminate|].
+    eapply Permutation_trans; [apply Permutation_app_head; apply (IH Hn Hin)|]. apply Permutation_sym. apply Permutation_middle.
+Qed.
+
+Lemma concat_buckets_skip bl r f : bucket_label bl r = None -> forall keys,
+  map (fun L => bucket bl L (r :: f)) keys = map (fun L => bucket bl L f) keys.
+Proof.
+  intros B keys. apply map_ext. intros L. unfold bucket. cbn [filter]. rewrite (in_bucket_none bl L r B). reflexivity.
+Qed.
+
+Lemma concat_buckets_nil bl keys : concat (map (fun L => bucket bl L []) keys) ++ dropped bl [] = [].
+Proof. induction keys as [|a keys IH]; [reflexivity|]. cbn [map concat]. exact IH. Qed.
+
+(* results = disjoint union of the buckets ++ the dropped ones, for any duplicate-free key list covering the bucket labels *)
+Theorem buckets_partition bl keys : NoDup keys -> forall f,
+  (forall r l, In r f -> bucket_label bl r = Some l -> In l keys) ->
+  Permutation f (concat (map (fun L => bucket bl L f) keys) ++ dropped bl f).
+Proof.
+  intros Hn. induction f as [|r f IH]; intros Hc.
+  - rewrite concat_buckets_nil. apply perm_nil.
+  - assert (Hc' : forall r' l, In r' f -> bucket_label bl r' = Some l -> In l keys) by (intros r' l Hr; apply Hc; right; exact Hr).
+    specialize (IH Hc'). unfold dropped. cbn [filter]. fold (dropped bl f). unfold is_dropped.
+    destruct (bucket_label bl r) as [l|] eqn:B.
+    + eapply Permutation_trans; [apply perm_skip; exact IH|].
+      eapply Permutation_trans; [|apply Permutation_app_tail; apply Permutation_sym; apply (concat_buckets_cons bl r f l B keys Hn)].
+      * reflexivity.
+      * apply (Hc r l); [left; reflexivity|exact B].
+    + rewrite (concat_buckets_skip bl r f B). eapply Permutation_trans; [apply perm_skip; exact IH|]. apply Permutation_middle.
+Qed.
+
+Corollary divide_partition bl f :
+  NoDup (dkeys (divide bl f)) /\
+  (forall L, dget (divide bl f) L = if has_key bl f L then Some (bucket bl L f) else None) /\
+  Permutation f (concat (map (fun L => bucket bl L f) (dkeys (divide bl f))) ++ dropped bl f).
+Proof.
+  split; [apply divide_nodup|split; [apply divide_get|]]. apply buckets_partition; [apply divide_nodup|].
+  intros r l Hr B. apply divide_key_iff. unfold has_key. apply orb_true_iff. right. apply existsb_exists. exists r.
+  split; [exact Hr|]. rewrite (in_bucket_label bl l r l B). apply Nat.eqb_refl.
+Qed.
+
+(* ---------- renaming of track ids ---------- *)
+Lemma filter_map_commute {A} (p : A -> bool) (g : A -> A) l : (forall x, p (g x) = p x) -> filter p (map g l) = map g (filter p l).
+Proof.
+  intros H. induction l as [|a l IH]; [reflexivity|]. cbn [map filter]. rewrite H. destruct (p a); cbn [map]; rewrite IH; reflexivity.
+Qed.
+
+Lemma rename_bucket_label fe fg bl r : bucket_label bl (rename_pres fe fg r) = bucket_label bl r.
+Proof. unfold bucket_label, rename_pres. cbn. destruct (mem (pr_elab r) bl); [reflexivity|]. destruct (pr_gt r); reflexivity. Qed.
+
+Lemma rename_bucket fe fg bl L f : bucket bl L (map (rename_pres fe fg) f) = map (rename_pres fe fg) (bucket bl L f).
+Proof. unfold bucket. apply filter_map_commute. intros r. unfold in_bucket. rewrite rename_bucket_label. reflexivity. Qed.
+
+Lemma view_rename fe fg mm r : view mm (rename_pres fe fg r) = rename_result fe fg (view mm r).
+Proof. unfold view, rename_pres, rename_result. cbn. destruct (pr_gt r); reflexivity. Qed.
+
+Lemma view_rename_bucket fe fg mm bl L f :
+  map (view mm) (bucket bl L (map (rename_pres fe fg) f)) = map (rename_result fe fg) (map (view mm) (bucket bl L f)).
+Proof. rewrite rename_bucket, !map_map. apply map_ext. intros r. apply view_rename. Qed.
+
+Theorem frame_clear_rename fe fg : injective fe -> injective fg -> forall mm Lt prev cur,
+  frame_clear mm Lt (option_map (rename_pfr fe fg) prev) (rename_pfr fe fg cur) = frame_clear mm Lt prev cur.
+Proof.
+  intros He Hg mm Lt prev cur. unfold frame_clear, frame_history. cbn [rename_pfr f_bl f_res f_gts].
+  replace (prev_res (option_map (rename_pfr fe fg) prev)) with (map (rename_pres fe fg) (prev_res prev)) by (destruct prev; reflexivity).
+  rewrite !view_rename_bucket.
+  change [map (rename_result fe fg) (map (view mm) (bucket (f_bl cur) (fst Lt) (prev_res prev)));
+          map (rename_result fe fg) (map (view mm) (bucket (f_bl cur) (fst Lt) (f_res cur)))]
+    with (rename_history fe fg [map (view mm) (bucket (f_bl cur) (fst Lt) (prev_res prev)); map (view mm) (bucket (f_bl cur) (fst Lt) (f_res cur))]).
+  apply clear_rename_invariant; assumption.
+Qed.
+
+Theorem scene_clear_rename fe fg : injective fe -> injective fg -> forall tl mm Lt frames,
+  scene_clear tl mm Lt (map (rename_pfr fe fg) frames) = scene_clear tl mm Lt frames.
+Proof.
+  intros He Hg tl mm Lt frames. unfold scene_clear, scene_history. rewrite !map_map. cbn [rename_pfr f_gts f_res].
+  replace ([] :: map (fun x => map (view mm) (bucket tl (fst Lt) (map (rename_pres fe fg) (f_res x)))) frames)
+    with (rename_history fe fg ([] :: map (fun fr => map (view mm) (bucket tl (fst Lt) (f_res fr))) frames)).
+  - apply clear_rename_invariant; assumption.
+  - unfold rename_history. cbn [map]. rewrite map_map. f_equal. apply map_ext. intros fr. symmetry. apply view_rename_bucket.
+Qed.
+
+Lemma scores_spec_ext tl cfg f g : (forall mm Lt, f mm Lt = g mm Lt) -> scores_spec tl cfg f = scores_spec tl cfg g.
+Proof. intros H. unfold scores_spec. apply map_ext. intros s. apply map_ext. intros Lt. apply H. Qed.
+
+Theorem frame_tracking_rename fe fg : injective fe -> injective fg -> forall tl cfg prev cur,
+  (forall L, In L tl -> mem L (f_bl cur) = true) ->
+  frame_tracking tl cfg (option_map (rename_pfr fe fg) prev) (rename_pfr fe fg cur) = frame_tracking tl cfg prev cur.
+Proof.
+  intros He Hg tl cfg prev cur Hin. rewrite !frame_tracking_spec by assumption. f_equal.
+  apply scores_spec_ext. intros mm Lt. apply frame_clear_rename; assumption.
+Qed.
+
+Theorem scene_tracking_rename fe fg : injective fe -> injective fg -> forall tl cfg frames, NoDup tl ->
+  scene_tracking tl cfg (map (rename_pfr fe fg) frames) = scene_tracking tl cfg frames.
+Proof.
+  intros He Hg tl cfg frames Hn. rewrite !scene_tracking_spec by assumption. f_equal.
+  apply scores_spec_ext. intros mm Lt. apply scene_clear_rename; assumption.
+Qed.
+
+(* the whole run of the manager *)
+Lemma frame_outs_rename fe fg : injective fe -> injective fg -> forall tl cfg frs prev,
+  (forall fr, In fr frs -> forall L, In L tl -> mem L (f_bl fr) = true) ->
+  frame_outs tl cfg (option_map (rename_pfr fe fg) prev) (map (rename_pfr fe fg) frs) = frame_outs tl cfg prev frs.
+Proof.
+  intros He Hg tl cfg. induction frs as [|fr frs IH]; intros prev Hb; cbn [map frame_outs]; [reflexivity|].
+  rewrite (frame_tracking_rename fe fg He Hg) by (apply Hb; left; reflexivity).
+  f_equal. apply (IH (Some fr)). intros fr' Hf. apply Hb. right. exact Hf.
+Qed.
+
+Theorem run_frames_rename fe fg : injective fe -> injective fg -> forall tl cfg frs,
+  (forall fr, In fr frs -> forall L, In L tl -> mem L (f_bl fr) = true) ->
+  snd (run_frames tl cfg [] (map (rename_pfr fe fg) frs)) = snd (run_frames tl cfg [] frs) /\
+  fst (run_frames tl cfg [] (map (rename_pfr fe fg) frs)) = map (rename_pfr fe fg) (fst (run_frames tl cfg [] frs)).
+Proof.
+  intros He Hg tl cfg frs Hb. rewrite !run_frames_spec. cbn [fst snd app]. split; [|reflexivity].
+  apply (frame_outs_rename fe fg He Hg tl cfg frs None Hb).
+Qed.
+
+(* ---------- totals ---------- *)
+Lemma scores_spec_wf tl cfg f : (forall mm Lt, wf_clear (f mm Lt)) -> Forall (Forall wf_clear) (scores_spec tl cfg f).
+Proof.
+  intros H. unfold scores_spec. apply Forall_forall. intros ks Hks. apply in_map_iff in Hks. destruct Hks as (s & <- & _).
+  apply Forall_forall. intros k Hk. apply in_map_iff in Hk. destruct Hk as (Lt & <- & _). apply H.
+Qed.
+Lemma frame_clear_wf mm Lt prev cur : wf_clear (frame_clear mm Lt prev cur).
+Proof. apply make_clear_wf. Qed.
+Lemma scene_clear_wf tl mm Lt frames : wf_clear (scene_clear tl mm Lt frames).
+Proof. apply make_clear_wf. Qed.
+
+(* MetricsScore.num_ground_truth of the scene *)
+Lemma scene_label_fold_none od nd labels : fold_left (scene_label_step od nd) labels None = None.
+Proof. induction labels as [|a labels IH]; [reflexivity|exact IH]. Qed.
+
+Lemma scene_inner_dsum od nd : forall labels ad an ad' an',
+  fold_left (scene_label_step od nd) labels (Some (ad, an)) = Some (ad', an') ->
+  exists ks, Forall2 (fun L k => dget nd L = Some k) labels ks /\ dsum an' = (dsum an + sum_nat ks)%nat.
+Proof.
+  induction labels as [|a labels IH]; intros ad an ad' an' H; cbn [fold_left] in H.
+  - inversion H; subst. exists []. split; [constructor|cbn; lia].
+  - unfold scene_label_step at 2 in H.
+    destruct (dget ad a) as [h|]; [|rewrite scene_label_fold_none in H; discriminate].
+    destruct (dget od a) as [b|]; [|rewrite scene_label_fold_none in H; discriminate].
+    destruct (dget an a) as [n|] eqn:En; [|rewrite scene_label_fold_none in H; discriminate].
+    destruct (dget nd a) as [k|] eqn:Ek; [|rewrite scene_label_fold_none in H; discriminate].
+    destruct (IH _ _ _ _ H) as (ks & F & E). exists (k :: ks). split; [constructor; assumption|].
+    pose proof (dsum_dset_old an a n (n + k)%nat En). cbn [sum_nat]. lia.
+Qed.
+
+Lemma count_label_cons L g gts : count_label L (g :: gts) = ((if Nat.eqb L g then 1 else 0) + count_label L gts)%nat.
+Proof. unfold count_label. cbn [filter]. destruct (Nat.eqb L g); reflexivity. Qed.
+
+Lemma count_labels_sum tl : NoDup tl -> forall gts ks,
+  Forall2 (fun L k => k = count_label L gts) tl ks -> sum_nat ks = countb (fun l => mem l tl) gts.
+Proof.
+  intros Hn gts. induction gts as [|g gts IH]; intros ks F.
+  - unfold countb, count_label in *. cbn [filter length] in *. clear Hn. induction F as [|L k tl ks E F IHF]; [reflexivity|]. subst. exact IHF.
+  - assert (F' : Forall2 (fun L k => k = count_label L gts) tl (map (fun L => count_label L gts) tl)).
+    { clear. induction tl; constructor; auto. }
+    specialize (IH _ F'). unfold countb in *. cbn [filter]. 
+    assert (E : sum_nat ks = (sum_nat (map (fun L => count_label L gts) tl) + (if mem g tl then 1 else 0))%nat).
+    { clear IH F'. revert ks F. induction tl as [|a tl IHt]; intros ks F; inversion F; subst; [reflexivity|].
+      apply NoDup_cons_iff in Hn. destruct Hn as [Ha Hn]. cbn [map sum_nat]. rewrite (IHt Hn _ H3), mem_cons.
+      rewrite count_label_cons, (Nat.eqb_sym g a).
+      destruct (Nat.eqb a g) eqn:Eg; cbn [orb].
+      - apply Nat.eqb_eq in Eg. subst g. destruct (mem a tl) eqn:M; [apply mem_In in M; contradiction|]. lia.
+      - lia. }
+    rewrite E, IH. destruct (mem g tl); cbn [length]; lia.
+Qed.
+
+Lemma forall2_nd tl gts : forall labels ks, (forall L, In L labels -> mem L tl = true) ->
+  Forall2 (fun L k => dget (divide_num tl gts) L = Some k) labels ks -> Forall2 (fun L k => k = count_label L gts) labels ks.
+Proof.
+  intros labels ks Hm F. induction F as [|L k ls ks0 HL F IHF]; constructor.
+  - rewrite divide_num_get, (Hm L (or_introl eq_refl)) in HL. congruence.
+  - apply IHF. intros L' HL'. apply Hm. right. exact HL'.
+Qed.
+
+Theorem scene_num_gt_spec tl : NoDup tl -> forall frames,
+  scene_num_gt tl frames = Some (sum_nat (map (fun fr => countb (fun l => mem l tl) (f_gts fr)) frames)).
+Proof.
+  intros Hn frames. unfold scene_num_gt.
+  assert (G : forall frames, exists ad an, scene_dicts tl frames = Some (ad, an) /\
+              dsum an = sum_nat (map (fun fr => countb (fun l => mem l tl) (f_gts fr)) frames)).
+  { clear frames. induction frames as [|fr frames IH] using rev_ind.
+    - exists (dinit tl [[]]), (dinit tl 0%nat). split; [reflexivity|]. unfold dinit. rewrite dsum_dinit; reflexivity.
+    - destruct IH as (ad & an & E & D). destruct (scene_dicts_spec tl Hn (frames ++ [fr])) as (ad' & an' & E' & _ & _).
+      exists ad', an'. split; [exact E'|]. unfold scene_dicts in *. rewrite fold_left_app in E'. cbn [fold_left] in E'. rewrite E in E'.
+      unfold scene_frame_step in E'. destruct (scene_inner_dsum _ _ _ _ _ _ _ E') as (ks & F & S).
+      rewrite S, D, map_app, sum_nat_app. cbn [map sum_nat]. rewrite Nat.add_0_r. f_equal.
+      apply (count_labels_sum tl Hn). apply (forall2_nd tl (f_gts fr) tl ks); [intros L HL; apply mem_In; exact HL|exact F]. }
+  destruct (G frames) as (ad & an & E & D). rewrite E, D. reflexivity.
+Qed.
+
+Corollary scene_num_gt_sums_frames tl frames : NoDup tl ->
+  (forall fr, In fr frames -> forall l, mem l (f_bl fr) = mem l tl) ->
+  scene_num_gt tl frames = Some (sum_nat (map frame_num_gt frames)).
+Proof.
+  intros Hn Hb. rewrite (scene_num_gt_spec tl Hn). f_equal. f_equal. apply map_ext_in. intros fr Hf.
+  rewrite frame_num_gt_count. apply countb_ext_in. intros l _. symmetry. apply Hb. exact Hf.
+Qed.
+
+(* each result of bucket L is exactly one of TP / FP when its threshold label is L, and changes nothing otherwise *)
+Lemma bucket_step_partition mm L t prevs a r :
+  let a' := apply_dec a (decide (mode_of mm) [(L, t)] prevs (view mm r)) in
+  if Nat.eqb L (pthr_label r)
+  then (c_tp a' = S (c_tp a) /\ c_fp a' = c_fp a) \/ (c_tp a' = c_tp a /\ c_fp a' = S (c_fp a))
+  else a' = a.
+Proof.
+  pose proof (step_partition (mode_of mm) [(L, t)] prevs a (view mm r)) as H. cbv zeta in *.
+  rewrite is_target_single in H. exact H.
+Qed.
+
+Lemma scores_totals_weighted tl cfg f ks : (forall mm Lt, wf_clear (f mm Lt)) -> In ks (scores_spec tl cfg f) ->
+  let G := sumN k_numgt ks in
+  let Tp := sumN k_tp ks in
+  oq_eq (fst (fst (sum_clear ks))) (match G with O => None | _ => Some (sumQ mota_weight ks / Qnat G) end) /\
+  oq_eq (snd (fst (sum_clear ks))) (match Tp with O => None | _ => Some (sumQ motp_weight ks / Qnat Tp) end) /\
+  snd (sum_clear ks) = sumN k_sw ks /\
+  sumQ mota_weight ks == sumQ clamp_num ks /\
+  sumQ motp_weight ks == sumQ (fun k => c_score (k_cnt k)) ks.
+Proof.
+  intros Hw Hin. apply sum_clear_weighted. pose proof (scores_spec_wf tl cfg f Hw) as W. rewrite Forall_forall in W. apply W. exact Hin.
+Qed.
